@@ -89,6 +89,21 @@ def plan(tier, seed):
                     jobs.append({"reported": reported, "id": f"{r['codemod']}|{draw}|{S}|{vname}", "cid": r["codemod"], "S": S, "k": k, "ranges": ranges, "variant": vname, "tool": r["tool"], "src": src, "files": {"code.py": b64(src), "other.py": b64("x = 1\n")},
                                  "result_files": {"r.json": doc(r["tool"], "code.py", fs, decoys)}, "argv": ["{proj}", "--output", "{out}", FLAG[r["tool"]], "{res}/r.json", "--codemod-include", r["codemod"]],
                                  "monitors": {"snap": False}, "n_site_findings": {i: len(sites[i]) for i in range(k)}})
+                    # how the result files are handed over (tools that accept several files): one file; the findings split over two; an empty file after / before the real one;
+                    # for Sonar an issues file together with a hotspots file that holds nothing open. The reported set is the union, whatever the delivery.
+                    if r["tool"] in ("sonar", "defectdojo") and fs:
+                        J = jobs[-1]; dl = ("single", "then-empty", "split", "empty-then", "with-other-kind-empty")[len(jobs) % 5]
+                        empty = doc(r["tool"], "code.py", [], [])
+                        if dl == "then-empty": J["result_files"]["e.json"] = empty; files_arg = "{res}/r.json,{res}/e.json"
+                        elif dl == "empty-then": J["result_files"]["e.json"] = empty; files_arg = "{res}/e.json,{res}/r.json"
+                        elif dl == "split" and len(fs) >= 2 and r["tool"] == "sonar":      # (DefectDojo identities are numbered per document)
+                            J["result_files"] = {"r.json": doc(r["tool"], "code.py", fs[:1], decoys), "s.json": doc(r["tool"], "code.py", fs[1:], [])}; files_arg = "{res}/r.json,{res}/s.json"
+                        else: files_arg = "{res}/r.json"
+                        J["argv"] = ["{proj}", "--output", "{out}", FLAG[r["tool"]], files_arg, "--codemod-include", r["codemod"]]
+                        if dl == "with-other-kind-empty" and r["tool"] == "sonar":
+                            other_flag = "--sonar-hotspots-json" if FLAG["sonar"] == "--sonar-issues-json" else "--sonar-issues-json"
+                            J["result_files"]["o.json"] = json.dumps({"hotspots": [], "issues": []}); J["argv"] += [other_flag, "{res}/o.json"]
+                        J["delivery"] = dl; J["id"] += "|" + dl
     jobs += same_line_jobs(tier, rnd, recs)
     jobs += layout_jobs(tier, rnd, recs)
     return jobs
